@@ -311,6 +311,11 @@ func (wf *Workflow) runProcs(procs map[string]WorkflowProcess) {
 	}
 
 	for _, proc := range procs {
+		if proc == wf.driver {
+			// The driver is run in the main go-routine below (it is still in
+			// procs when it is the only process of the workflow)
+			continue
+		}
 		Debug.Printf(wf.name+": Starting process (%s) in new go-routine", proc.Name())
 		go proc.Run()
 	}
